@@ -121,9 +121,10 @@ _PROBE_STATE = {"raise_at": None, "calls": 0, "fired": False}
 class ProbeBuilder:
     """Recording implementation of the ResonanceDynamicsBuilder protocol."""
 
-    def __init__(self, tag: str, exotic: bool = False) -> None:
+    def __init__(self, tag: str, exotic: bool = False, shared: bool = False) -> None:
         self.verif_tag = tag
         self.exotic = exotic
+        self.shared = shared
 
     def __call__(self, resonance, variable_pool):
         import sympy as sp  # noqa: PLC0415
@@ -144,6 +145,11 @@ class ProbeBuilder:
         expr = sp.Function(f"Dyn{self.verif_tag}")(
             vp.incoming_state_mass, vp.outgoing_state_mass1, vp.outgoing_state_mass2, L)
         par = sp.Symbol(f"q_{{{self.verif_tag},{resonance.name}}}", real=True)
+        if self.shared:
+            # one parameter shared by all resonances, with a suggested default that differs from
+            # resonance to resonance ("last suggested default wins" is what the builder documents)
+            radius = sp.Symbol("q_{shared}", positive=True)
+            return par * expr * radius, {par: 0.25, radius: round(float(resonance.mass), 3)}
         if self.exotic:
             # parameters a custom lineshape may legitimately use: assumptions that are only False
             # facts, an Indexed parameter, an integer-valued default
@@ -187,6 +193,7 @@ def dynamics_registry() -> dict:
             "probeB": ProbeBuilder("B"),
             "probeC": ProbeBuilder("C"),
             "probeX": ProbeBuilder("X", exotic=True),
+            "probeS": ProbeBuilder("S", shared=True),
         })
     return _DYN
 
